@@ -1,7 +1,10 @@
 From Coq Require Import List NArith ZArith ExtrOcamlBasic.
-From WV Require Import Lib.PyBytes Gen.GenAdjust Model.Adjust.
+From WV Require Import Lib.PyBytes Gen.GenAdjust Model.Adjust Spec.AdjustCli.
 Extraction "model.ml" cast_value construct parse_args cli_construct getopt
   excl excl_names proxy_refused proxy_count_defaulted proxy_headers_defaulted
   families_refused families_value check_sockets middleware_installed hostport_override
   params cli_long_opts cli_mangle cli_unmangle docs_args help_opts truthy known_proxy_headers
-  splitlines aslist_str parse_int memstr N.add N.mul.
+  splitlines aslist_str parse_int memstr N.add N.mul
+  scan keyword_form has_help has_call choose_app resolve option_table
+  class_defaults docs_defaults help_defaults runner_rst_defaults
+  docs_proxy_headers help_proxy_headers runner_rst_proxy_headers.
